@@ -413,6 +413,12 @@ func cmdCheck(args []string) int {
 				if after {
 					break
 				}
+				if r.O.Kind == "cover" {
+					// a return that cannot be reached under the contract's preconditions: dead code or a
+					// precondition stronger than the code needs -- reported, not a property violation
+					fmt.Printf("NOTE: unreachable under the preconditions: %s\n", r.O.Text)
+					break
+				}
 				fmt.Printf("VACUOUS: %s: %s\n", r.O.Name, r.O.Text)
 				failed = append(failed, r)
 			default:
